@@ -4259,10 +4259,17 @@ notify_disconnected_and_dispatch_complete_unlocked (DBusConnection *connection)
       
       /* We haven't sent the disconnect message already,
        * and all real messages have been queued up.
+       *
+       * The call above drops and re-takes the connection lock for each
+       * pending call, so another thread may have got here and queued the
+       * disconnect message in the meantime: check again.
        */
-      _dbus_connection_queue_synthesized_message_link (connection,
-                                                       connection->disconnect_message_link);
-      connection->disconnect_message_link = NULL;
+      if (connection->disconnect_message_link != NULL)
+        {
+          _dbus_connection_queue_synthesized_message_link (connection,
+                                                           connection->disconnect_message_link);
+          connection->disconnect_message_link = NULL;
+        }
 
       return DBUS_DISPATCH_DATA_REMAINS;
     }
